@@ -392,16 +392,20 @@ func (in *Interp) callUser(fd *gen.FuncDef, args []Value) Value {
 }
 
 func (in *Interp) test(args []Value) Value {
+	// whether an invalid test call counts in the summary is not documented
 	if len(args) == 0 {
+		in.Unknown = "invalid test call"
 		panic(Panic{"bad-arguments", "test needs arguments"})
 	}
 	if len(args) == 1 {
 		if _, ok := unwrap(args[0]).(bool); !ok {
+			in.Unknown = "invalid test call"
 			panic(Panic{"bad-arguments", "test with one argument needs a bool"})
 		}
 	}
 	if len(args) > 2 {
 		if _, ok := unwrap(args[2]).(string); !ok {
+			in.Unknown = "invalid test call"
 			panic(Panic{"bad-arguments", "test message must be a string"})
 		}
 	}
@@ -498,6 +502,11 @@ func (in *Interp) sprintf(format string, args []Value) string {
 					in.Unknown = "%v with precision on a number"
 				}
 				s = String(a)
+				if width >= 0 && fmt.Sprintf("%v", a) != s {
+					// the spelling of large/small numbers under %v is not documented (compared by value
+					// without a width; with a width the padding depends on the spelling)
+					in.Unknown = "%v with width on a number whose default spelling is not documented"
+				}
 			case string:
 				s = a
 				if prec >= 0 && runeLen(s) > prec {
